@@ -15,18 +15,49 @@ Definition Bs (s : String.string) : list Z :=
    secret  the session secret the client received (string), if any
    via     where it was delivered: 0 = only in the URIs of the playlist (query), 1 = only as cookie, 2 = both, 3 = n/a
    id      identity of the session the driver saw appear in the muxer (numbered in order of appearance)
-   pc, pq  ORACLE: google/uuid Parse of the hlsSession cookie value / of the session query value of a media request *)
+   pc, pq  ORACLE: google/uuid Parse of the hlsSession cookie value / of the session query value of a media request
+   sip     session.ip of the session that appeared (read from the muxer's table)
+   who     GROUND TRUTH, not an observation: which of the case's clients really originated the request (index into
+           `clients`): the TCP peer itself, or the host in front of a chain of proxies that are all configured as
+           trusted and each append their peer to X-Forwarded-For (or replace it by X-Real-Ip). None = undetermined: a
+           trusted proxy that hides or garbles its peer *)
 Record obs := mkob { o_status : Z; o_secret : option (list Z); o_via : Z; o_id : option Z;
-                     o_pc : option uuid; o_pq : option uuid }.
+                     o_pc : option uuid; o_pq : option uuid; o_sip : option (list Z); o_who : option Z }.
 
+(* perm: admitted (path, credentials, client index) ; nostr: paths without stream ; tp: hlsTrustedProxies ;
+   clients: addresses of the clients ; ips: ORACLE net.ParseIP on every item of every forwarding header and on every
+   client / proxy address of the case (text, address); a text that is not listed is not an IP.
+   Header identities in netreq: 0 X-Forwarded-For, 1 X-Real-Ip, 2 CF-Connecting-IP, 3 X-Appengine-Remote-Addr,
+   4 Fly-Client-IP, 5 True-Client-IP, 6 X-Client-IP, 7 Forwarded *)
 Inductive case :=
-  Hist (alw : bool) (cdn : list Z) (perm : list (Z * Z * Z)) (nostr : list Z) (steps : list (op * obs)).
+  Hist (alw : bool) (cdn : list Z) (perm : list (Z * Z * Z)) (nostr : list Z)
+       (tp : list cidr) (clients : list addr) (ips : list (list Z * addr)) (steps : list (op * obs)).
 
 Definition perm_lookup (perm : list (Z * Z * Z)) (p cred ip : Z) : bool :=
   existsb (fun t => let '(a, b, c) := t in (a =? p) && (b =? cred) && (c =? ip)) perm.
 
-Definition mkconf (alw : bool) (cdn : list Z) (perm : list (Z * Z * Z)) (nostr : list Z) : config :=
-  {| always := alw; cdn_secret := cdn; auth := perm_lookup perm; nostream := fun p => memz p nostr |}.
+Definition ip_lookup (ips : list (list Z * addr)) (t : list Z) : option addr :=
+  match find (fun e => bytes_eqb (fst e) t) ips with Some e => Some (snd e) | None => None end.
+
+Definition addr_eqb (a b : addr) : bool := Bool.eqb (fst a) (fst b) && (snd a =? snd b).
+
+Fixpoint index_of (a : addr) (l : list addr) (i : Z) : option Z :=
+  match l with
+  | [] => None
+  | x :: r => if addr_eqb x a then Some i else index_of a r (i + 1)
+  end.
+
+(* the stub path manager: net.ParseIP(ctx.ClientIP()) must be the address of a client the table admits *)
+Definition auth_of (perm : list (Z * Z * Z)) (clients : list addr) (ips : list (list Z * addr)) (p cred : Z) (ip : list Z) : bool :=
+  match ip_lookup ips ip with
+  | Some a => match index_of a clients 0 with Some i => perm_lookup perm p cred i | None => false end
+  | None => false
+  end.
+
+Definition mkconf (alw : bool) (cdn : list Z) (perm : list (Z * Z * Z)) (nostr : list Z)
+                  (tp : list cidr) (clients : list addr) (ips : list (list Z * addr)) : config :=
+  {| always := alw; cdn_secret := cdn; auth := auth_of perm clients ips; nostream := fun p => memz p nostr;
+     trusted := tp; parse_ip := ip_lookup ips |}.
 
 Definition opt_eqb {A} (eqb : A -> A -> bool) (a b : option A) : bool :=
   match a, b with
@@ -36,7 +67,7 @@ Definition opt_eqb {A} (eqb : A -> A -> bool) (a b : option A) : bool :=
   end.
 
 (* does the observation agree with the model's outcome ? *)
-Definition agree (o : op) (x : out) (ob : obs) : bool :=
+Definition agree (c : config) (o : op) (x : out) (ob : obs) : bool :=
   match x with
   | ORedirect => (o_status ob =? 302) && opt_eqb Z.eqb (o_id ob) None
   | OUnauth => (o_status ob =? 401) && opt_eqb Z.eqb (o_id ob) None
@@ -45,7 +76,9 @@ Definition agree (o : op) (x : out) (ob : obs) : bool :=
   | OCreated vc id =>
       (o_status ob =? 200) && opt_eqb Z.eqb (o_id ob) (Some id) && (o_via ob =? (if vc then 1 else 0))
       && match o, o_secret ob with
-         | Multi _ _ _ _ _ _ sec, Some str => opt_eqb bytes_eqb (uuid_parse str) (Some sec) && (Z.of_nat (length sec) =? 16)
+         | Multi _ _ n _ _ _ sec, Some str =>
+             opt_eqb bytes_eqb (uuid_parse str) (Some sec) && (Z.of_nat (length sec) =? 16)
+             && opt_eqb bytes_eqb (o_sip ob) (Some (cip c n))      (* session.ip = the model's ClientIP *)
          | _, _ => false
          end
   | OCdnCreated id => (o_status ob =? 200) && opt_eqb Z.eqb (o_id ob) (Some id) && (o_via ob =? 3)
@@ -67,11 +100,13 @@ Definition parse_agree (o : op) (ob : obs) : bool :=
 Fixpoint compare (c : config) (st : state) (steps : list (op * obs)) : bool :=
   match steps with
   | [] => true
-  | (o, ob) :: r => let '(st1, x) := step c st o in agree o x ob && parse_agree o ob && compare c st1 r
+  | (o, ob) :: r => let '(st1, x) := step c st o in agree c o x ob && parse_agree o ob && compare c st1 r
   end.
 
 Definition mismatch (cs : case) : bool :=
-  match cs with Hist alw cdn perm nostr steps => negb (compare (mkconf alw cdn perm nostr) init steps) end.
+  match cs with
+  | Hist alw cdn perm nostr tp clients ips steps => negb (compare (mkconf alw cdn perm nostr tp clients ips) init steps)
+  end.
 
 (* ---- the property on the observations only (no model state, no model uuid parser) ---------------------------- *)
 
@@ -106,10 +141,16 @@ Fixpoint witness (w : op * obs -> option Z) (p : Z) (prev : list (op * obs)) : b
 Definition some_eqb (a b : option uuid) : bool :=
   match a, b with Some x, Some y => bytes_eqb x y | _, _ => false end.
 
+Definition admitted (perm : list (Z * Z * Z)) (p cred : Z) (who : option Z) : bool :=
+  match who with Some i => perm_lookup perm p cred i | None => true end.
+
+Definition same_client (a b : option Z) : bool :=
+  match a, b with Some x, Some y => x =? y | _, _ => true end.
+
 Definition justified (cdn : list Z) (perm : list (Z * Z * Z)) (prev : list (op * obs)) (e : op * obs) : bool :=
   let '(o, ob) := e in
   match o with
-  | Media p ip hdr cookie query =>
+  | Media p _ hdr cookie query =>
       if negb (passed ob) then true
       else if cdn_hdr cdn hdr then
         (* CDN: a CDN session was created on THIS path by a request carrying the CDN secret, and still lives *)
@@ -120,19 +161,21 @@ Definition justified (cdn : list Z) (perm : list (Z * Z * Z)) (prev : list (op *
                            end) p prev
       else
         (* the request "carries the secret" if the cookie or the query holds it; which of the two the server looks at
-           (cookie first) is part of the model and checked by `mismatch`, not part of the property *)
+           (cookie first) is part of the model and checked by `mismatch`, not part of the property.
+           "From the same IP": the two requests were really originated by the same client (ground truth `who`; how
+           the server finds out - peer address, headers of trusted proxies - is the model's business) *)
         witness (fun e' => match e' with
-                           | (Multi p' cred ip' hdr' ccq _ sec, ob') =>
+                           | (Multi p' cred _ hdr' ccq _ sec, ob') =>
                                if (p' =? p) && negb (cdn_hdr cdn hdr') && (o_status ob' =? 200) && ccq
-                                  && perm_lookup perm p' cred ip' && (ip' =? ip)
+                                  && admitted perm p' cred (o_who ob') && same_client (o_who ob') (o_who ob)
                                   && (some_eqb (match cookie with Some _ => o_pc ob | None => None end) (Some sec)
                                       || some_eqb (o_pq ob) (Some sec))
                                then o_id ob' else None
                            | _ => None
                            end) p prev
-  | Multi p cred ip hdr ccq _ _ =>
+  | Multi p cred _ hdr ccq _ _ =>
       (* a session is only created for an admitted client that went through the cookie check (or for the CDN) *)
-      if (o_status ob =? 200) && negb (cdn_hdr cdn hdr) then ccq && perm_lookup perm p cred ip else true
+      if (o_status ob =? 200) && negb (cdn_hdr cdn hdr) then ccq && admitted perm p cred (o_who ob) else true
   | _ => true
   end.
 
@@ -143,4 +186,4 @@ Fixpoint spec_walk (cdn : list Z) (perm : list (Z * Z * Z)) (prev rest : list (o
   end.
 
 Definition spec_fail (cs : case) : bool :=
-  match cs with Hist alw cdn perm nostr steps => negb (spec_walk cdn perm [] steps) end.
+  match cs with Hist alw cdn perm nostr _ _ _ steps => negb (spec_walk cdn perm [] steps) end.
